@@ -107,7 +107,7 @@ def run_case(c, d):
         # relative imports of the plain tree, for the absolutise comparison
         rel = [[n.module, n.level, [[a.name, a.asname] for a in n.names], n.lineno] for n in ast.walk(plain) if isinstance(n, ast.ImportFrom)]
         ab = [[n.module, n.level, [[a.name, a.asname] for a in n.names], n.lineno] for n in ast.walk(orig) if isinstance(n, ast.ImportFrom)]
-        return {'orig': orig_tokens, 'new': new_tokens, 'error': err, 'full': bool(full), 'matched': sorted([int(k), v] for k, v in matched.items()),
+        return {'orig': orig_tokens, 'new': new_tokens, 'error': err, 'full': bool(full), 'matched': [[int(k), v] for k in sorted(matched) for v in (matched[k] if isinstance(matched[k], list) else [matched[k]])],
                 'importfrom_plain': rel, 'importfrom_abs': ab}
     finally:
         os.chdir(old_cwd)
